@@ -71,7 +71,7 @@ UNIT = {
     'by_value': ['struct KeyIDAndFlags', 'struct KeyID', 'vbytes', 'struct CommandSignature', 'strref', 'struct SQLiteBuildDB_DBKeyID', 'struct DBKeyID'],
     'by_pointer': ['vstr', 'keyt'],
     'predefined_structs': ['DBKeyID', 'KeyID', 'KeyIDAndFlags', 'DependencyKeyIDs', 'CommandSignature', 'bdec', 'benc', 'map_kd', 'map_dk', 'kv_kd', 'kv_dk', 'sqlite3_stmt', 'sqlite3'],
-    'no_translate': ['open', 'getCurrentErrorMessage', 'getKeyID'],
+    'no_translate': ['open', 'getCurrentErrorMessage'],
     'range_by_value': True,
     'drop_if_mentions': [],
     'calls': {
@@ -99,6 +99,8 @@ UNIT = {
     'stubs': {
         'SQLiteBuildDB_open': {'ret': '_Bool', 'params': 'struct SQLiteBuildDB *self, vstr *error_out', 'assigns': [],
                                'requires': [('P:C03', 'self->dbMutex.held')], 'ensures': ['(RESULT != 0) == (g_open_ok != 0)']},
+        'BuildDBDelegate_getKeyForID': {'ret': 'keyt', 'params': 'struct BuildDBDelegate *self, struct KeyID key', 'requires': [], 'assigns': [],
+                                        'ensures': ['RESULT.ptr == g_key_text.ptr && RESULT.len == g_key_text.len']},
         'BuildDBDelegate_getKeyID': {'ret': 'struct KeyID', 'params': 'struct BuildDBDelegate *self, keyt *key',
                                      # the key handed to the engine is the stored text with its stored length (NUL-safe)
                                      'requires': [('P:C03', 'key->ptr == (const char *)g_col_blob[0] && key->len == (size_t)g_col_bytes[0]')],
@@ -111,7 +113,7 @@ if FAST is not None:
     UNIT['functions'] = {
         'SQLiteBuildDB::getKeyIDForID': {
             'requires': ['__CPROVER_is_fresh(self, sizeof(*self))', '__CPROVER_is_fresh(self->delegate, sizeof(*self->delegate))',
-                         '__CPROVER_is_fresh(error_out, sizeof(*error_out))', 'self->dbMutex.held', 'g_slots == 0 && g_errors == 0'],
+                         '__CPROVER_is_fresh(error_out, sizeof(*error_out))', 'self->dbMutex.held', 'g_slots == 0 && g_errors == 0 && g_stepped == 0'],
             'assigns': ['*error_out', 'g_slots', 'g_slot_dk_key', 'g_slot_kd_key', 'g_dk_value', 'g_kd_value', 'g_errors', 'g_bound_stmt', '__CPROVER_object_whole(g_bind_i64)', 'g_stepped'],
             'ensures': [
                 # a cached id is answered from the cache; otherwise the stored key text (with its stored byte length) is mapped by the engine
@@ -125,14 +127,14 @@ if FAST is not None:
             'requires': ['__CPROVER_is_fresh(self, sizeof(*self))', '__CPROVER_is_fresh(self->delegate, sizeof(*self->delegate))',
                          '__CPROVER_is_fresh(error_out, sizeof(*error_out))', '__CPROVER_is_fresh(result_out, sizeof(*result_out))', '__CPROVER_is_fresh(key, sizeof(*key))',
                          '__CPROVER_is_fresh(self->fastFindRuleResultStmt, 1) && __CPROVER_is_fresh(self->findRuleResultStmt, 1)',
-                         '!self->dbMutex.held', 'g_slots == 0 && error_out->len == 0 && g_errors == 0',
+                         '!self->dbMutex.held', 'g_slots == 0 && error_out->len == 0 && g_errors == 0 && g_stepped == 0',
                          'g_col_bytes[0] >= 0 && g_col_bytes[1] >= 0 && g_col_bytes[2] >= 0 && g_col_bytes[3] >= 0 && g_col_bytes[4] >= 0 && g_col_bytes[5] >= 0 && g_col_bytes[6] >= 0 && g_col_bytes[7] >= 0',
                          'g_col_bytes[%d] <= 4096 && g_col_bytes[%d] <= 4096 && g_col_bytes[%d] <= 4096 && g_col_bytes[%d] <= 4096' % (_idx(FAST, 'value'), _idx(FAST, 'dependencies'), _idx(SLOW, 'value'), _idx(SLOW, 'dependencies')), 'g_k < 512', ' && '.join('g_col_dbl[%d] == g_col_dbl[%d]' % (i, i) for i in range(9)),   # start/end times are not NaN
                          'VEC_OK(result_out->dependencies.items, struct KeyIDAndFlags) && result_out->dependencies.items.cap == 512'],
             'assigns': ['*error_out', 'result_out->value', 'result_out->builtAt', 'result_out->computedAt', 'result_out->start', 'result_out->end', 'result_out->signature',
                         'result_out->dependencies.items.len', '__CPROVER_object_whole(result_out->dependencies.items.ptr)',
                         'self->dbMutex.held', 'g_slots', 'g_slot_dk_key', 'g_slot_kd_key', 'g_dk_value', 'g_kd_value', 'g_errors', 'g_memcpy_src', 'g_memcpy_n', 'g_dec_src', 'g_dec_pos', 'g_bound_stmt',
-                        '__CPROVER_object_whole(g_bind_i64)', 'g_stepped'],
+                        '__CPROVER_object_whole(g_bind_i64)', 'g_stepped', 'g_text_stmt', 'g_text_ptr', 'g_text_len', 'g_text_binds'],
             'ensures': ([('P:C03', '!g_open_ok ==> !RESULT'), ('P:C03', '!self->dbMutex.held'),
                          ('P:C03', 'RESULT ==> g_bound_stmt == (g_kd_hit ? self->fastFindRuleResultStmt : self->findRuleResultStmt)')] +
                         row_clauses(FAST, 'g_kd_hit') + row_clauses(SLOW, '!g_kd_hit') +
@@ -180,3 +182,67 @@ if FAST is not None:
                                     '(g_k < $i) ==> g_enc_words[g_k] == %s' % DEPW],
                       'decreases': '$range->items.len - $i'}},
     }
+
+    OPEN = ['__CPROVER_is_fresh(self, sizeof(*self))', '__CPROVER_is_fresh(error_out, sizeof(*error_out))', 'self->db != 0 ==> __CPROVER_is_fresh(self->db, 1)', 'g_open_ok ==> self->db != 0',
+            '!self->dbMutex.held', 'g_prepares == 0 && g_finalizes == 0 && g_execs == 0 && g_stepped == 0 && g_errors == 0 && error_out->len == 0']
+    ADHOC = ['*error_out', 'self->dbMutex.held', 'g_errors', 'g_prepares', 'g_prepared_sql', 'g_finalizes', 'g_stepped', 'g_bound_stmt', '__CPROVER_object_whole(g_bind_i64)', 'g_execs', 'g_exec_sql']
+    UNIT['functions']['SQLiteBuildDB::getCurrentEpoch'] = {
+        'requires': OPEN + ['__CPROVER_is_fresh(success_out, sizeof(*success_out))', 'g_bound_stmt == &g_adhoc_stmt'],
+        'assigns': ADHOC + ['*success_out'],
+        'ensures': [
+            # the epoch handed to the engine is the stored iteration (column 0 of the one row of info), read on the open connection
+            ('P:C03,P:C04', '(*success_out != 0) ==> (g_open_ok && g_api_ok && g_step_result == 100 && RESULT == (uint64_t)g_col_i64[0] && LIT4(g_prepared_sql, 0, \'S\',\'E\',\'L\',\'E\') && LIT4(g_prepared_sql, 7, \'i\',\'t\',\'e\',\'r\'))'),
+            ('P:C03', '(*success_out == 0) ==> (RESULT == 0 && (!g_open_ok || g_errors >= 1))'),
+            ('P:C03', '(g_open_ok && g_api_ok && g_step_result == 100) ==> *success_out != 0'),
+            # every prepared statement is finalized (a leaked statement keeps the database locked) and the mutex is released
+            ('P:C03,P:C04', 'g_prepares <= 1 && ((g_prepares == 1 && g_api_ok) ? g_finalizes == 1 : g_finalizes == 0)'), ('P:C03', '!self->dbMutex.held'),
+        ]}
+    UNIT['functions']['SQLiteBuildDB::setCurrentIteration'] = {
+        'requires': OPEN, 'assigns': ADHOC,
+        'ensures': [
+            # success means the UPDATE of the iteration column ran to completion with exactly the value given
+            ('P:C04,P:C03,P:C01', 'RESULT ==> (g_open_ok && g_api_ok && g_stepped == 1 && g_step_result == 101 && g_bind_i64[1] == (long long)value && '
+                                  'LIT4(g_prepared_sql, 0, \'U\',\'P\',\'D\',\'A\') && LIT4(g_prepared_sql, 16, \'i\',\'t\',\'e\',\'r\'))'),
+            ('P:C04', '!RESULT ==> (!g_open_ok || g_errors >= 1)'),
+            ('P:C04', '(g_open_ok && g_api_ok && g_step_result == 101) ==> RESULT'),
+            ('P:C03', '!self->dbMutex.held'),
+        ]}
+    UNIT['functions']['SQLiteBuildDB::buildStarted'] = {
+        'requires': OPEN, 'assigns': ADHOC,
+        'ensures': [
+            # a build runs inside one exclusive transaction: started only if BEGIN EXCLUSIVE succeeded on the open connection
+            ('P:C04,P:C03', 'RESULT ==> (g_open_ok && g_execs == 1 && g_exec_ok && LIT4(g_exec_sql, 0, \'B\',\'E\',\'G\',\'I\') && LIT4(g_exec_sql, 6, \'E\',\'X\',\'C\',\'L\'))'),
+            ('P:C04', '!RESULT ==> (!g_open_ok || g_errors >= 1)'), ('P:C04', '(g_open_ok && g_exec_ok) ==> RESULT'), ('P:C03', '!self->dbMutex.held'),
+        ]}
+    STM = ['findKeyIDForKeyStmt', 'findKeyNameForKeyIDStmt', 'findRuleResultStmt', 'fastFindRuleResultStmt', 'deleteFromKeysStmt', 'insertIntoKeysStmt', 'insertIntoRuleResultsStmt', 'getKeysWithResultStmt']
+    UNIT['functions']['SQLiteBuildDB::buildComplete'] = {
+        'requires': ['__CPROVER_is_fresh(self, sizeof(*self))', '__CPROVER_is_fresh(self->db, 1)', '!self->dbMutex.held', 'g_execs == 0 && g_finalizes == 0'],
+        'assigns': ['self->dbMutex.held', 'g_execs', 'g_exec_sql', 'g_finalizes', 'self->db'] + ['self->%s' % x for x in STM],
+        'ensures': [
+            # the build's transaction is committed with END on the open connection ...
+            ('P:C04', 'g_execs == 1 && LIT4(g_exec_sql, 0, \'E\',\'N\',\'D\',\';\')'),
+            # ... and the connection is then closed (statements finalized, handles cleared) so that no lock on the file outlives the build
+            ('P:C04,P:C03', 'self->db == 0 && g_finalizes == 8 && ' + ' && '.join('self->%s == 0' % x for x in STM)),
+            ('P:C03', '!self->dbMutex.held')]}
+    UNIT['functions']['SQLiteBuildDB::getKeyIDFromDB'] = {
+        'requires': ['__CPROVER_is_fresh(self, sizeof(*self))', '__CPROVER_is_fresh(self->delegate, sizeof(*self->delegate))', '__CPROVER_is_fresh(error_out, sizeof(*error_out))', '__CPROVER_is_fresh(self->db, 1)',
+                     '__CPROVER_is_fresh(self->findKeyIDForKeyStmt, 1) && __CPROVER_is_fresh(self->insertIntoKeysStmt, 1)', 'self->dbMutex.held', 'g_text_binds == 0 && g_stepped == 0 && g_errors == 0'],
+        'assigns': ['*error_out', 'g_errors', 'g_bound_stmt', 'g_text_stmt', 'g_text_ptr', 'g_text_len', 'g_text_binds', 'g_stepped'],
+        'ensures': [
+            # the key is looked up / inserted by its text WITH its byte length (keys may contain NUL bytes)
+            ('P:C03', '(g_text_binds >= 1) ==> (g_text_ptr == g_key_text.ptr && g_text_len == (int)g_key_text.len)'),
+            # found: the stored id; not found: inserted and the new row id; any API failure: the zero id and an error
+            ('P:C03', '(g_api_ok && g_step_result == 100) ==> (RESULT.value == (uint64_t)g_col_i64[0] && g_stepped == 1 && g_text_stmt == self->findKeyIDForKeyStmt)'),
+            ('P:C03', '(g_api_ok && g_step_result != 100 && g_step_second == 101) ==> (RESULT.value == (uint64_t)g_last_rowid && g_stepped == 2 && g_text_stmt == self->insertIntoKeysStmt && g_text_binds == 2)'),
+            ('P:C03', '(!g_api_ok || (g_step_result != 100 && g_step_second != 101)) ==> (RESULT.value == 0 && g_errors >= 1)'),
+        ]}
+    UNIT['functions']['SQLiteBuildDB::getKeyID'] = {
+        'requires': UNIT['functions']['SQLiteBuildDB::getKeyIDFromDB']['requires'] + ['g_slots == 0'],
+        'assigns': UNIT['functions']['SQLiteBuildDB::getKeyIDFromDB']['assigns'] + ['g_slots', 'g_slot_dk_key', 'g_slot_kd_key', 'g_dk_value', 'g_kd_value'],
+        'ensures': [
+            # a cached id is answered from the cache without touching the database
+            ('P:C03', 'g_kd_hit ==> (RESULT.value == g_kd_entry.second.value && g_text_binds == 0 && g_slots == 0)'),
+            # otherwise the database id is cached both ways -- unless the lookup failed (id 0 is never cached)
+            ('P:C03', '(!g_kd_hit && RESULT.value != 0) ==> (g_slots == 2 && g_slot_kd_key._value == keyID._value && g_kd_value.value == RESULT.value && g_slot_dk_key == RESULT.value && g_dk_value._value == keyID._value)'),
+            ('P:C03', '(!g_kd_hit && RESULT.value == 0) ==> g_slots == 0'),
+        ]}
